@@ -28,6 +28,22 @@ CMPOPS = {
 }
 
 
+class Model:
+    """Base class of checker-side model objects: attribute access and calls on them are delegated to Python."""
+
+
+class ReturnValue(Exception):
+    def __init__(self, value):
+        self.value = value
+
+
+class RaisedInModel(Exception):
+    """The interpreted code executed a `raise` statement."""
+
+    def __init__(self, node):
+        self.node = node
+
+
 class Evaluator:
     """Subclass and override name/attr/subscript/call as needed."""
 
@@ -41,6 +57,11 @@ class Evaluator:
         raise Unsupported("unbound name %s (line %d)" % (node.id, node.lineno))
 
     def attr(self, node, base):
+        if isinstance(base, Model):
+            try:
+                return getattr(base, node.attr)
+            except AttributeError:
+                raise Unsupported("model %s has no attribute %s" % (type(base).__name__, node.attr))
         raise Unsupported("attribute .%s on %r (line %d)" % (node.attr, base, node.lineno))
 
     def subscript(self, node, base, index):
@@ -267,3 +288,78 @@ class Evaluator:
         self._comp(node.generators, emit)
         self.env.clear(); self.env.update(saved)
         return out
+
+
+    # ------------------------------------------------------------------ statements (straight-line + decidable control)
+    def run_function(self, fnode, args, kwargs=None):
+        """Bind arguments to the parameters of fnode and execute its body; returns the returned value."""
+        a = fnode.args
+        names = [x.arg for x in a.posonlyargs + a.args]
+        for n_, v in zip(names, args):
+            self.env[n_] = v
+        for k, v in (kwargs or {}).items():
+            self.env[k] = v
+        defaults = a.defaults
+        for n_, d in zip(names[len(names) - len(defaults):], defaults):
+            if n_ not in self.env:
+                self.env[n_] = self.ev(d)
+        return self.run_body(fnode.body)
+
+    def run_body(self, body):
+        try:
+            self.exec_block(body)
+        except ReturnValue as r:
+            return r.value
+        return None
+
+    def exec_block(self, body):
+        for st in body:
+            self.exec_stmt(st)
+
+    def exec_stmt(self, st):
+        if isinstance(st, ast.Expr):
+            if not isinstance(st.value, ast.Constant):
+                self.ev(st.value)
+        elif isinstance(st, ast.Assign):
+            v = self.ev(st.value)
+            for t in st.targets:
+                self.assign(t, v)
+        elif isinstance(st, ast.AugAssign):
+            cur = self.ev(st.target)
+            v = self.ev(st.value)
+            self.assign(st.target, self.binop(st, st.op, cur, v))
+        elif isinstance(st, ast.Return):
+            raise ReturnValue(self.ev(st.value) if st.value is not None else None)
+        elif isinstance(st, ast.If):
+            self.exec_block(st.body if self.truth(self.ev(st.test), st.test) else st.orelse)
+        elif isinstance(st, ast.For):
+            for item in self.ev(st.iter):
+                self.bind(st.target, item)
+                self.exec_block(st.body)
+            self.exec_block(st.orelse)
+        elif isinstance(st, ast.Raise):
+            raise RaisedInModel(st)
+        elif isinstance(st, ast.Pass):
+            pass
+        else:
+            raise Unsupported("statement %s (line %d)" % (type(st).__name__, st.lineno))
+
+    def assign(self, t, v):
+        if isinstance(t, ast.Name):
+            self.env[t.id] = v
+        elif isinstance(t, (ast.Tuple, ast.List)):
+            self.bind(t, v)
+        elif isinstance(t, ast.Subscript):
+            base = self.ev(t.value)
+            try:
+                base[self.ev_index(t.slice)] = v
+            except Exception as e:
+                raise Unsupported("subscript store %s: %s" % (ast.unparse(t), e))
+        elif isinstance(t, ast.Attribute):
+            base = self.ev(t.value)
+            if isinstance(base, Model):
+                setattr(base, t.attr, v)
+            else:
+                raise Unsupported("attribute store %s" % ast.unparse(t))
+        else:
+            raise Unsupported("store to %s" % ast.unparse(t))
